@@ -328,7 +328,13 @@ class Gen:
             # vote-bearing or value-consuming: onmatch would make their own vote part of "the rest" (undefined order)
             q = [x for x in q if x != "onmatch"]
         if f == "tally":
-            return ("fn", "tally", [("hdr", r.choice(STRH + NUMH))], q)
+            hs = [("hdr", r.choice(STRH + NUMH))]
+            if r.random() < 0.35:
+                # several values: each under its own name plus the pipe-joined combination under the tally's name
+                hs = [("hdr", h) for h in r.sample(STRH + NUMH, r.choice([2, 2, 3]))]
+                if r.random() < 0.5:
+                    q = [self.fresh("tl")] + q
+            return ("fn", "tally", hs, q)
         if f == "sum":
             return ("fn", "sum", [r.choice([("hdr", "a"), ("hdr", "b"), self.num(1)])], [self.fresh("sm")] + q)
         if f == "counter":
@@ -506,8 +512,8 @@ def data_rows(r, header_prob=0.85, nmax=8):
             continue
         a = r.choice(nums) if r.random() < 0.94 else r.choice(["", "3.5", "x1", " 4 ", "3.5"])
         b = r.choice(nums) if r.random() < 0.94 else r.choice(["", "2.5", "-1", "-1"])
-        c = r.choice(["abc", "x", "Q", "ab", " x ", "ABC", "zz", "b c", "abc", "x"]) if r.random() < 0.96 else ""
-        d = r.choice(["abc", "q", "b c", "X", "x"]) if r.random() < 0.96 else ""
+        c = r.choice(["abc", "x", "Q", "ab", " x ", "ABC", "zz", "b c", "abc", "x"]) if r.random() < 0.96 else r.choice(["", "", " ", "   "])
+        d = r.choice(["abc", "q", "b c", "X", "x"]) if r.random() < 0.96 else r.choice(["", "", "nan", "None"])
         row = [a, b, c, d] + ([r.choice(["41", "42", "77"])] if twin else [])
         y = r.random()
         if y < 0.05:
